@@ -89,14 +89,17 @@ theorem chain_rowwise : ∀ (fs : List (Arr → Arr)), (∀ f, f ∈ fs → RowW
     rw [chainFn_cons, chainFn_cons, chainFn_cons, hh g (List.mem_cons_self ..)]
     exact chain_rowwise fs (fun f hf => hh f (List.mem_cons_of_mem _ hf)) _ _
 
-/-- PROPERTY with `batch_size`: the result is the same tree with `x ↦ _apply_batched(x, batch_size)` applied to
-the points of the shape and of every landmark group at every depth -/
-theorem apply_batched_expected (f : Arr → Arr) (b : Option Nat) (s : Shape) :
+/-- PROPERTY with `batch_size` (`None` or positive: the documented domain; `applyT` / `applyBatched` are the TOTAL
+model, which for `batch_size = 0` would cut no batch at all where the code raises — that branch is
+`apply_nonpos_batch` over the error-aware `applyBatchedE`): the result is the same tree with
+`x ↦ _apply_batched(x, batch_size)` applied to the points of the shape and of every landmark group at every depth -/
+theorem apply_batched_expected (f : Arr → Arr) (b : Option Nat) (_hb : ∀ k, b = some k → 0 < k) (s : Shape) :
     applyT expectedDispatch f b (.shape s) = .ok (.shape (mapShape (applyBatched f b) s)) := by
   simp only [applyT, applyAny, applyV_expected, Except.map]
 
 /-- (e) with `batch_size`: the points of `t.apply(shape, batch_size=b)` are `t.apply(shape.points, batch_size=b)` -/
-theorem apply_batched_array_agrees (f : Arr → Arr) (b : Option Nat) (s s' : Shape) (a' : Arr)
+theorem apply_batched_array_agrees (f : Arr → Arr) (b : Option Nat) (_hb : ∀ k, b = some k → 0 < k) (s s' : Shape)
+    (a' : Arr)
     (h : applyT expectedDispatch f b (.shape s) = .ok (.shape s'))
     (ha : applyT expectedDispatch f b (.array s.points) = .ok (.array a')) : s'.points = a' :=
   apply_array_agrees (applyBatched f b) s s' a' h ha
@@ -185,6 +188,9 @@ theorem apply_chain : ∀ (fs : List (Arr → Arr)) (s : Shape),
 
 /-! ### WithDims -/
 
+/- `withDims` is the TOTAL model of `WithDims._apply` (a missing column reads as 0): the three statements below are about
+in-range, non-negative indices, where it is what the code computes (`withDimsE_list_ok`, Props/C02Src.lean); out of
+range the code raises IndexError (`withDimsE_index_error`) -/
 theorem withDims_width (dims : List Nat) (x : Arr) : ∀ row, row ∈ withDims dims x → row.length = dims.length := by
   intro row hr
   simp only [withDims, List.mem_map] at hr
